@@ -240,6 +240,7 @@ def cmd_check(prop_id, tier, seed, replay_case=None, repo=None, quiet=False):
         viols.append({"property": prop_id, "key": c["key"], "msg": f"worker died rc={c['rc']}",
                       "case": c["case"], "detail": c["excerpt"]})
     # hangs are confirmed by an isolated re-run with a 5x budget before they count
+    watchdog_notes = []
     if replay_case is None:
         confirmed, verdict = [], {}
         for v in viols:
@@ -252,7 +253,12 @@ def cmd_check(prop_id, tier, seed, replay_case=None, repo=None, quiet=False):
                         verdict[k] = _confirm_hang(prop_id, tier, seed, v["case"], variant, builddir, repo,
                                                    case_timeout * 3, extra_env)
                 if not verdict[k]:
-                    inconclusive.append(f"unconfirmed watchdog firing: {json.dumps(v['case'])[:300]}")
+                    watchdog_notes.append(f"unconfirmed watchdog firing: {json.dumps(v['case'])[:300]}")
+                    continue
+                if not getattr(meta, "HANG_IS_VIOLATION", False):
+                    # only C06/C09 state "returns or raises"; elsewhere a slow case is a harness matter
+                    watchdog_notes.append(f"case exceeded the watchdog twice (not a verdict for this property): "
+                                          f"{json.dumps(v['case'])[:300]}")
                     continue
             confirmed.append(v)
         viols = confirmed
@@ -284,6 +290,8 @@ def cmd_check(prop_id, tier, seed, replay_case=None, repo=None, quiet=False):
     required = getattr(meta, "REQUIRED", [])
     missing = [r for r in required if agg["counters"].get(r, 0) == 0]
     distinct = len(agg["sigs"])
+    if len(watchdog_notes) > 5:
+        inconclusive.append(f"{len(watchdog_notes)} watchdog firings: {watchdog_notes[0]}")
     if replay_case is None:
         if missing:
             inconclusive.append(f"deciding monitors never evaluated: {missing}")
@@ -313,6 +321,7 @@ def cmd_check(prop_id, tier, seed, replay_case=None, repo=None, quiet=False):
                 "worker_crashes": len(crashes),
                 "known_findings_observed": {k: n for k, (_, n) in seen_known.items()},
                 "inconclusive": inconclusive,
+                "watchdog_notes": watchdog_notes,
             },
             "assumptions": getattr(meta, "ASSUMPTIONS", []),
             "wall_s": round(wall, 2),
